@@ -24,6 +24,8 @@ func register(id, explanation string, rules ...ruleFn) {
 	props[id] = &propDef{explanation: explanation, rules: rules}
 }
 
+var verbose *bool
+
 func main() {
 	repo := flag.String("repo", "/repo", "repository working tree to analyse")
 	prop := flag.String("property", "", "property id (C01..C16) or 'all'")
@@ -31,6 +33,7 @@ func main() {
 	evid := flag.String("evidence", "", "evidence file to write (default <verif>/evidence/<id>.json)")
 	verif := flag.String("verif", "/verif", "verification directory (known_findings.json, replay/, evidence/)")
 	dump := flag.String("dump", "", "debug: dump facts (tables|paths:<fn>|reach:<prop>)")
+	verbose = flag.Bool("v", false, "print every obligation")
 	noEvidence := flag.Bool("no-evidence", false, "do not write evidence/replay (used when analysing scratch variants)")
 	flag.Parse()
 	if t := os.Getenv("VERIF_TIER"); t != "" && *tier == "" {
@@ -93,6 +96,9 @@ func runProp(c *Ctx, id, tier string, seed int64, verif, evid string, noEvidence
 	pd := props[id]
 	for _, rule := range pd.rules {
 		rule(c, r)
+	}
+	if *verbose {
+		r.dumpObs()
 	}
 	path := evid
 	if path == "" || multi {
